@@ -127,12 +127,12 @@ Definition check_case (c : ccase) : bool :=
       | Ok (o, e) => opt_eqb (list_eqb list_N_eqb) o out && list_N_eqb (codes e) errs
       | _ => false
       end
-  | CUnquote lit out => opt_eqb list_N_eqb (go_unquote lit) out
+  | CUnquote lit out => opt_eqb list_N_eqb (go_unquote (utf8_decode lit)) out
   | CJsonQuote bs out => list_N_eqb (json_quote bs) out
-  | CJsonParse text out => opt_eqb jvalue_eqb (json_parse text) out
+  | CJsonParse text out => opt_eqb jvalue_eqb (json_parse (utf8_decode text)) out
   | CIntLit lit out => opt_eqb list_N_eqb (int_json lit) out
   | CGoQuote rs nonprint out =>
-      list_N_eqb (go_quote (fun r => negb (existsb (N.eqb r) nonprint)) rs) out
+      list_N_eqb (go_quote (fun r => negb (existsb (N.eqb r) nonprint)) (utf8_decode rs)) out
   | CPrint v nonprint out =>
       list_N_eqb (print_doc (fun r => negb (existsb (N.eqb r) nonprint)) v) out
   end.
